@@ -311,8 +311,11 @@ FrameSeen(fs, pt) == {f \in StageOf(fs, pt, "frame") : ~(f.a = "NLRI" /\ StopsBe
 As4AggAlone(fs) ==
   /\ \E f \in fs : f.a = "AS4_AGGREGATOR"
   /\ (Has(fs, "AS4_AGGREGATOR", "alone") \/ Has(fs, "AGGREGATOR", "len") \/ Has(fs, "AGGREGATOR", "flags"))
+(* PathAttribute.DecodeFromBytes checks the flags before the attribute's own decoder runs: a second
+   decode-stage fault inside an attribute with wrong flags is never looked at *)
+DecSeen(fs, pt) == {f \in StageOf(fs, pt, "dec") : f.k = "flags" \/ ~Has(fs, f.a, "flags")}
 MechClass(fs, pt, taw, fixed) ==
-  LET dc  == ClsMax(StageOf(fs, pt, "dec"), pt)
+  LET dc  == ClsMax(DecSeen(fs, pt), pt)
       vc  == ClsMax(StageOf(fs, pt, "val"), pt)
       raw == IF FrameSeen(fs, pt) # {} \/ dc = ResetC THEN ResetC
              ELSE IF dc = None \/ fixed THEN MaxOf({dc, vc})
@@ -332,7 +335,7 @@ MechClass(fs, pt, taw, fixed) ==
 Masked(fs, pt, taw) ==
   /\ taw
   /\ FrameSeen(fs, pt) = {}
-  /\ ClsMax(StageOf(fs, pt, "dec"), pt) # ResetC
+  /\ ClsMax(DecSeen(fs, pt), pt) # ResetC
   \* a decode error of class discard / withdraw; a zero-length list counts as one (it is none on the
   \* pinned tree - then nothing is masked and the strict invariants hold - but becomes one as soon
   \* as KF-C06-zero-length-list-attribute is repaired)
